@@ -42,9 +42,11 @@ class ListSpacing(str, Enum):
 
 def _normalize_title_quotes(title: str) -> str:
     """
-    Normalize title quotes.
+    Write a link title (the text, without its delimiters) in double quotes. Quote
+    characters at its edges belong to the title, and a literal backslash in front of
+    punctuation is written as an escaped backslash.
     """
-    escaped = title.strip('"').replace('"', '\\"')
+    escaped = re.sub(r"\\(?=[!-/:-@\[-`{-~]|$)", r"\\\\", title).replace('"', '\\"')
     return f'"{escaped}"'
 
 
